@@ -3,8 +3,8 @@
    Model/Url.v (net/url, path/filepath on the stated grammar: EXTERNAL, modelled not verified).
    Layer 1 is parametric in the URL library: it holds for every function standing in for
    url.Parse / URL.Query / filepath.Clean, so it carries no trust in Model/Url.v. *)
-From AP.Model Require Import Prelude Bytes Url IriEq.
-From AP.Proofs Require Import NlvP IriEqP.
+From AP.Model Require Import Prelude Bytes Url IriEq IriNf CollIri IriNfX.
+From AP.Proofs Require Import NlvP IriEqP LowerP SortP IriGenP IriNfP IriXP.
 From Coq Require Import Sorting.Permutation.
 
 (* ---- layer 1: arbitrary strings, arbitrary library behaviour ---- *)
@@ -26,7 +26,7 @@ Proof. exact iri_equals_m_refl. Qed.
 Theorem C14_sym_code : forall a b cs, iri_equals_m a b cs = iri_equals_m b a cs.
 Proof. exact iri_equals_m_sym. Qed.
 
-(* membership tests on IRI lists agree with it *)
+(* membership tests on IRI lists agree with it (all strings) *)
 Theorem C14_contains : forall l x, iris_contains l x = existsb (fun iri => iri_eqb x iri false) l.
 Proof. exact iris_contains_spec. Qed.
 
@@ -45,10 +45,220 @@ Theorem C14_url_equivalence : forall cs,
   (forall u w x, url_same cs u w -> url_same cs w x -> url_same cs u x).
 Proof. exact url_same_equiv. Qed.
 
-(* PARTIAL: the full statement "iri_equals_m a b cs = Some true <-> url_same cs (parse a) (parse b)"
-   additionally needs that the string fast path of IRI.Equals (EqualFold after stripping fragment and
-   scheme) implies url_same on the grammar; that lemma is not proved yet.  The correspondence check and
-   the native evaluation against an independent normal form cover the fast path by testing. *)
+(* ---- layer 3: the WHOLE of IRI.Equals - string fast path included - on the property's domain.
+   Domain (Model/IriNf.v): iri_dom s = true iff s is an absolute URL of the grammar of Model/Url.v
+   (url_classify s = UValid _) and its query string holds no upper-case letter ("query strings in one letter
+   case", reading of DESIGN Appendix A); iri_dom_upper is the other one-case class (no lower-case letter). ---- *)
+
+(* the URL grammar model is case-homomorphic: parsing, path cleaning and query splitting commute with ASCII
+   lower-casing (every delimiter is a non-letter, every alphabet of the grammar is closed under letter case).
+   Percent-escapes: "%" is not in any alphabet of this grammar, an IRI holding one is UUnmodelled here;
+   layer 4 below treats escapes in the path with the extended parser of Model/CollIri.v. *)
+Theorem C14_classify_case_homomorphic : forall s, url_classify (lower s) = lower_class (url_classify s).
+Proof. exact url_classify_lower. Qed.
+Theorem C14_clean_case_homomorphic : forall p, path_clean (lower p) = lower (path_clean p).
+Proof. exact path_clean_lower. Qed.
+Theorem C14_query_case_homomorphic : forall q,
+  query_pairs (lower q) = map (fun kv => (lower (fst kv), lower (snd kv))) (query_pairs q).
+Proof. exact query_pairs_lower. Qed.
+
+(* the fast path (EqualFold after cutting the fragment and - unless the caller asks for it - the scheme)
+   implies equal scheme (when compared), host, path and query up to letter case; no condition on the queries *)
+Theorem C14_fast_path : forall a b cs u w,
+  url_classify a = UValid u -> url_classify b = UValid w ->
+  fold_eqb (strip_for cs a) (strip_for cs b) = true ->
+  (cs = true -> lower (u_scheme u) = lower (u_scheme w)) /\
+  lower (u_host u) = lower (u_host w) /\
+  lower (u_path u) = lower (u_path w) /\
+  lower (u_query u) = lower (u_query w).
+Proof. exact fast_path_parts. Qed.
+
+Theorem C14_equals_is_fast_or_url : forall a b cs,
+  iri_equals_m a b cs =
+  (if fold_eqb (strip_for cs a) (strip_for cs b) then Some true
+   else iris_equal url_classify query_values values_eq (paths_equal path_clean) a b cs).
+Proof. exact (iri_equals_unfold url_classify query_values values_eq (paths_equal path_clean)). Qed.
+
+(* the sorted list of query pairs is a canonical form of the multiset of query parameters *)
+Theorem C14_sort_canonical : forall l l', Permutation l l' <-> sort_pairs l = sort_pairs l'.
+Proof. exact sort_pairs_canonical. Qed.
+
+(* the URL comparison is the kernel of the normal form *)
+Theorem C14_url_same_nf : forall cs u w, url_same cs u w <-> nf_url cs u = nf_url cs w.
+Proof. exact url_same_nf. Qed.
+
+(* THE CHARACTERISATION (DESIGN 7/C14, C14_char): on the domain IRI.Equals is the kernel of the normal form
+   (scheme iff asked, host with port, cleaned path - letter case ignored - and the multiset of query
+   parameters), for both values of the check-scheme flag *)
+Theorem C14_char : forall a b cs,
+  iri_dom a = true -> iri_dom b = true -> iri_eqb a b cs = nf_eqb (nf cs a) (nf cs b).
+Proof. exact iri_eqb_nf. Qed.
+
+Theorem C14_char_eq : forall a b cs,
+  iri_dom a = true -> iri_dom b = true -> (iri_eqb a b cs = true <-> nf cs a = nf cs b).
+Proof. exact (iri_eqb_nf_eq no_upper no_upper_inj). Qed.
+
+Theorem C14_char_upper : forall a b cs,
+  iri_dom_upper a = true -> iri_dom_upper b = true -> iri_eqb a b cs = nf_eqb (nf cs a) (nf cs b).
+Proof. exact iri_eqb_nf_upper. Qed.
+
+(* generic in the one-case class: any class of query strings on which lower-casing is injective *)
+Theorem C14_char_generic : forall qok : bytes -> bool,
+  (forall q q', qok q = true -> qok q' = true -> lower q = lower q' -> q = q') ->
+  forall a b cs, iri_dom_with qok a = true -> iri_dom_with qok b = true ->
+  iri_eqb a b cs = nf_eqb (nf cs a) (nf cs b).
+Proof. exact iri_eqb_nf_with. Qed.
+
+(* hence an equivalence relation: reflexive and symmetric everywhere, TRANSITIVE on the domain *)
+Theorem C14_trans : forall a b c cs,
+  iri_dom a = true -> iri_dom b = true -> iri_dom c = true ->
+  iri_eqb a b cs = true -> iri_eqb b c cs = true -> iri_eqb a c cs = true.
+Proof. exact iri_eqb_trans. Qed.
+
+Theorem C14_trans_upper : forall a b c cs,
+  iri_dom_upper a = true -> iri_dom_upper b = true -> iri_dom_upper c = true ->
+  iri_eqb a b cs = true -> iri_eqb b c cs = true -> iri_eqb a c cs = true.
+Proof. exact iri_eqb_trans_upper. Qed.
+
+Theorem C14_equivalence : forall cs,
+  (forall a, iri_eqb a a cs = true) /\
+  (forall a b, iri_eqb a b cs = iri_eqb b a cs) /\
+  (forall a b c, iri_dom a = true -> iri_dom b = true -> iri_dom c = true ->
+                 iri_eqb a b cs = true -> iri_eqb b c cs = true -> iri_eqb a c cs = true).
+Proof. exact iri_eqb_equivalence. Qed.
+
+(* membership tests on IRI lists agree with it *)
+Theorem C14_contains_nf : forall l x,
+  iri_dom x = true -> forallb iri_dom l = true ->
+  iris_contains l x = existsb (fun i => nf_eqb (nf false x) (nf false i)) l.
+Proof. exact iris_contains_nf. Qed.
+
+(* sensitivity: IRIs of the domain that differ in host, cleaned path or the multiset of query parameters are
+   unequal for both flags; for host and path no condition on the queries is needed *)
+Theorem C14_differ : forall a b cs,
+  iri_dom a = true -> iri_dom b = true -> ids_differ_hpq a b = true -> iri_eqb a b cs = false.
+Proof. exact iri_eqb_differ. Qed.
+
+Theorem C14_differ_host_path : forall a b cs u w,
+  url_classify a = UValid u -> url_classify b = UValid w ->
+  lower (u_host u) <> lower (u_host w) \/
+  lower (clean_url_path path_clean (u_path u)) <> lower (clean_url_path path_clean (u_path w)) ->
+  iri_eqb a b cs = false.
+Proof. exact iri_eqb_differ_host_path. Qed.
+
+(* why the domain asks for ONE letter case: across the two classes the relation is not transitive - the first
+   pair is equal by the fast path only, which folds the case of the query while the URL comparison does not.
+   Replayed on the real IRI.Equals by the harness (native "mixed-case" triple, reported, outside the domain). *)
+Theorem C14_one_case_needed :
+  exists a b c, iri_dom_upper a = true /\ iri_dom b = true /\ iri_dom c = true /\
+    iri_eqb a b false = true /\ iri_eqb b c false = true /\ iri_eqb a c false = false.
+Proof. exact mixed_case_not_transitive. Qed.
+
+(* ---- layer 4: percent-escapes in the path.  CollIri.url_classify_x is the parser of Model/Url.v extended by
+   "%XX" escapes in the path that decode to ASCII (url.Parse decodes them into URL.Path; compared with net/url by
+   Cases_C15_lib and Cases_C14_esclib); CollIri.iri_eqx is IRI.Equals over it (compared with the real IRI.Equals by
+   Cases_C15_eq and Cases_C14_esc).  "%2F" and "%2f" decode to the same byte, so the fast path - which folds the
+   hex digits of an escape like any letter - still implies the URL comparison.
+   Domain: iri_dom_x s = true iff url_classify_x s = UValid _ and the query holds no upper-case letter. ---- *)
+Theorem C14_decode_case : forall rp rp' p p',
+  lower rp = lower rp' -> pct_decode rp = Some p -> pct_decode rp' = Some p' -> lower p = lower p'.
+Proof. exact pct_decode_fold. Qed.
+
+Theorem C14_fast_path_x : forall a b cs u w,
+  url_classify_x a = UValid u -> url_classify_x b = UValid w ->
+  fold_eqb (strip_for cs a) (strip_for cs b) = true ->
+  (cs = true -> lower (u_scheme u) = lower (u_scheme w)) /\
+  lower (u_host u) = lower (u_host w) /\
+  lower (clean_url_path path_clean (u_path u)) = lower (clean_url_path path_clean (u_path w)) /\
+  lower (u_query u) = lower (u_query w).
+Proof. exact fast_x. Qed.
+
+Theorem C14_char_x : forall a b cs,
+  iri_dom_x a = true -> iri_dom_x b = true -> iri_eqx a b cs = nf_eqb (nf_x cs a) (nf_x cs b).
+Proof. exact iri_eqx_nf. Qed.
+
+Theorem C14_char_x_upper : forall a b cs,
+  iri_dom_x_upper a = true -> iri_dom_x_upper b = true -> iri_eqx a b cs = nf_eqb (nf_x cs a) (nf_x cs b).
+Proof. exact iri_eqx_nf_upper. Qed.
+
+Theorem C14_equivalence_x : forall cs,
+  (forall a, iri_eqx a a cs = true) /\
+  (forall a b, iri_eqx a b cs = iri_eqx b a cs) /\
+  (forall a b c, iri_dom_x a = true -> iri_dom_x b = true -> iri_dom_x c = true ->
+                 iri_eqx a b cs = true -> iri_eqx b c cs = true -> iri_eqx a c cs = true).
+Proof. exact (fun cs => conj (fun a => iri_eqx_refl a cs) (conj (fun a b => iri_eqx_sym' a b cs) (fun a b c => iri_eqx_trans a b c cs))). Qed.
+
+(* generic in the URL parser: ANY parser for which the fast path implies the URL comparison makes IRI.Equals the
+   kernel of the normal form on the IRIs it accepts (C14_char and C14_char_x are the two instances) *)
+Theorem C14_char_any_parser : forall classify : bytes -> url_class,
+  (forall a b cs u w, classify a = UValid u -> classify b = UValid w ->
+     fold_eqb (strip_for cs a) (strip_for cs b) = true ->
+     (cs = true -> lower (u_scheme u) = lower (u_scheme w)) /\
+     lower (u_host u) = lower (u_host w) /\
+     lower (clean_url_path path_clean (u_path u)) = lower (clean_url_path path_clean (u_path w)) /\
+     lower (u_query u) = lower (u_query w)) ->
+  forall qok : bytes -> bool,
+  (forall q q', qok q = true -> qok q' = true -> lower q = lower q' -> q = q') ->
+  forall a b cs, iri_dom_gen classify qok a = true -> iri_dom_gen classify qok b = true ->
+  iri_eqb_gen classify a b cs = nf_eqb (nf_gen classify cs a) (nf_gen classify cs b).
+Proof. exact eqb_nf_g. Qed.
+
+(* the extended parser extends the plain one: same domain membership, same normal form, same answer *)
+Theorem C14_x_conservative : forall a,
+  iri_dom a = true -> iri_dom_x a = true /\ (forall cs, nf_x cs a = nf cs a).
+Proof. exact (fun a D => conj (iri_dom_x_of_plain a D) (fun cs => nf_x_of_plain a cs D)). Qed.
+
+Theorem C14_x_agrees : forall a b cs, iri_dom a = true -> iri_dom b = true -> iri_eqx a b cs = iri_eqb a b cs.
+Proof. exact iri_eqx_of_plain. Qed.
+
+Example C14_char_x_example :
+  let a := B "https://EXAMPLE.com/users/a%2Fb/%41?x=1" in
+  let b := B "https://example.com/users/a%2fb/%41?x=1#f" in
+  let c := B "http://example.com/USERS/a/b/./a/?x=1" in
+  iri_dom_x a = true /\ iri_dom_x b = true /\ iri_dom_x c = true /\ iri_dom a = false /\
+  iri_eqx a b true = true /\ iri_eqx b c false = true /\ iri_eqx a c false = true /\ iri_eqx a c true = false /\
+  nf_x false a = Some ([], B "example.com", B "/users/a/b/a", [(B "x", B "1")]) /\
+  iri_eqb a c false = false.     (* the plain model abstains on escapes: iri_equals_m a c false = None *)
+Proof. cbv zeta. repeat split; vm_compute; reflexivity. Qed.
+
+(* REMAINS OUTSIDE: IRIs that neither parser accepts as UValid - percent-escapes in the query or the fragment,
+   escapes decoding to bytes >= 0x80, userinfo, IPv6 literals, raw bytes >= 0x80, characters outside the alphabets
+   of Model/Url.v, URLs without host - have no normal form in the model; for them layer 1 (reflexive, symmetric)
+   is all that is proved.  The harness exercises escapes in queries natively (escape grid, all pairs and triples
+   against the net/url normal form).  C09 / C10 are stated over the plain parser (iri_eqb). *)
+
+(* ---- the grid of the harness (harness/c14.go: c14Schemes x c14Hosts x c14Paths x c14Queries x c14Frags, the
+   nested-URL pairs and the id pools of C10 / gen.go) lies in the domain.  The harness also sends its own
+   component lists through grid_in_dom on every run (Cases_C14_grid), so a change of the Go lists that leaves
+   the domain is reported. ---- *)
+Definition c14_schemes := [B "http"; B "https"; B "HTTP"; B "hTTps"].
+Definition c14_hosts := [B "example.com"; B "EXAMPLE.com"; B "example.org"; B "example.com:8080"; B "Example.COM:8080"; B "sub.example.com"].
+Definition c14_paths := [B ""; B "/"; B "/."; B "/a"; B "/a/"; B "/A"; B "/a/b"; B "/a/./b"; B "/a/c/../b"; B "/a//b"; B "/a/b/"; B "/b"; B "/.."; B "/a/.."].
+Definition c14_queries := [B ""; B "?x=1"; B "?x=1&y=2"; B "?y=2&x=1"; B "?x=1&x=2"; B "?x=2&x=1"; B "?x=1&x=1"; B "?x=2&x=2"; B "?x=1&x=1&x=2"; B "?x=1&x=2&x=2"; B "?y=1"; B "?x"; B "?x="].
+Definition c14_frags := [B ""; B "#f"; B "#other"].
+
+Example C14_grid_in_domain :
+  grid_in_dom c14_schemes c14_hosts c14_paths c14_queries c14_frags = true /\
+  N.of_nat (length (grid_of c14_schemes c14_hosts c14_paths c14_queries c14_frags)) = 13104%N.
+Proof. split; vm_compute; reflexivity. Qed.
+
+Example C14_nested_in_domain :
+  forallb iri_dom [B "https://a.example/r?next=http://t.example/x"; B "https://b.example/q?u=https://t.example/y&v=1"] = true.
+Proof. vm_compute. reflexivity. Qed.
+
+(* non-vacuity of the characterisation: a pair equal by the fast path only as strings go, a pair equal by the
+   URL comparison only, an unequal pair; all hypotheses hold *)
+Example C14_char_example :
+  let a := B "https://EXAMPLE.com/a/./b/?y=2&x=1#frag" in
+  let b := B "http://example.com/A/c/../b?x=1&y=2" in
+  let c := B "HTTP://Example.COM/a/c/../B?x=1&y=2#other" in
+  iri_dom a = true /\ iri_dom b = true /\ iri_dom c = true /\
+  iri_eqb a b false = true /\ iri_eqb b c false = true /\ iri_eqb a c false = true /\
+  nf false a = nf false c /\ nf true a <> nf true b /\ iri_eqb a b true = false /\
+  fold_eqb (strip_for true b) (strip_for true c) = true /\ fold_eqb (strip_for false a) (strip_for false b) = false /\
+  nf false a = Some ([], B "example.com", B "/a/b", [(B "x", B "1"); (B "y", B "2")]) /\
+  ids_differ_hpq a (B "https://example.com/a/b?x=1") = true.
+Proof. cbv zeta. repeat split; try (vm_compute; reflexivity). vm_compute. discriminate. Qed.
 
 (* ---- the pinned tree violated symmetry and transitivity (repaired by two fix: commits) ---- *)
 Theorem C14_sym_pinned_refuted :
